@@ -13,7 +13,7 @@
                                    callbacks 0 .. n-1 in registration order. *)
 From Coq Require Import ZArith List Bool.
 From Coq Require String.
-From CV Require Import Base.Val Base.Bytes Base.Tys Gen.EmcyTables Model.Emcy Proofs.Emcy_proofs Gen.Src Proofs.Src_eq_nmt_emcy.
+From CV Require Import Base.Val Base.Bytes Base.Tys Gen.EmcyTables Model.Emcy Proofs.Emcy_proofs Gen.SrcC16 Proofs.Src_eq_c16.
 Import ListNotations.
 Open Scope Z_scope.
 
@@ -163,7 +163,7 @@ Example C16_nv_wait :
 Proof. vm_compute. repeat split; reflexivity. Qed.
 
 (* Tie to the source text: the error-reset test of EmcyConsumer.on_emcy as translated from the CURRENT source
-   by tools/py2coq.py (Gen/Src.v, regenerated on every run) is the model's is_reset_code. *)
+   by tools/py2coq.py (Gen/SrcC16.v, regenerated on every run) is the model's is_reset_code. *)
 Theorem C16_source_reset_test_is_model : forall code, src_emcy_is_reset code = is_reset_code code.
 Proof. exact src_emcy_is_reset_eq. Qed.
 
